@@ -15,7 +15,8 @@ package ga
 //  3. NamedIfaceMethodShapesR5: named types whose Equal method takes a NAMED interface (local,
 //     empty, imported) that the type implements — plugin/equal hands such a method the other VALUE,
 //     ids 100..199 of Go/Methods.v — or a NON-EMPTY interface literal / an alias of one — the method
-//     is handed the other value's ADDRESS, ids 200..299.
+//     is handed the other value's ADDRESS, ids 200..299; or a named interface that only *T implements
+//     (pointer receivers): the address as well.
 //  4. MutationGroupsR5: for a type, groups (origin, every single-leaf and single-nil-ness mutation
 //     of the origin), for a rich origin (every pointer set, every container populated) and for the
 //     zero value: the quantifier of C02 verbatim, where the catalogue's pools only reach the
@@ -258,7 +259,41 @@ func (c *Catalogue) NamedIfaceMethodTypesR5() []*Type {
 	mlc.Methods = ptrEqual("MLc", "interface {\n\tTag() int\n\tLabel() string\n}", "")
 	mla := Named(222, "MLa", 0, St(s, i)) // an alias of an interface literal
 	mla.Methods = ptrEqual("MLa", "MLaArg", "type MLaArg = interface{ Tag() int }\n\n")
-	return []*Type{mn, mns, mne, xn, mnx, ml, mlc, mla}
+	// third convention (goderive fix 3c717aa): a NAMED interface that only the POINTER type implements
+	// (pointer receivers) — the value is not assignable to the parameter, so the method is handed the
+	// other value's address like a *T parameter: ids 223..225
+	mq := Named(223, "MQ", 0, St(s, Sl(i))) // the interface mentions itself, as Shape.Equal(Shape)
+	mq.Methods = ptrEqual("MQ", "IMQ", self("IMQ"))
+	mqc := Named(224, "MQc", 0, St(i, s)) // ==-comparable
+	mqc.Methods = ptrEqual("MQc", "IMQc", "type IMQc interface {\n\tTag() int\n\tLabel() string\n}\n\n")
+	xq := Named(225, "XQ", 1, St(i, Sl(s))) // imported, with the interface of its package
+	xq.Methods = ptrEqual("XQ", "IXQ", self("IXQ"))
+	// ... and a Compare method of the same shape (goderive fix 9bb0687), -1/0/+1 by the first field, nil first
+	for _, t := range []*Type{mq, mqc, xq} {
+		t.Methods += "func (a *" + t.Name + ") Compare(that I" + t.Name + ") int {\n\tb, ok := that.(*" + t.Name + ")\n\tif !ok {\n\t\treturn -2\n\t}\n" +
+			"\tif a == nil {\n\t\tif b == nil {\n\t\t\treturn 0\n\t\t}\n\t\treturn -1\n\t}\n\tif b == nil {\n\t\treturn 1\n\t}\n" +
+			"\tif a.F0 < b.F0 {\n\t\treturn -1\n\t}\n\tif a.F0 > b.F0 {\n\t\treturn 1\n\t}\n\treturn 0\n}\n\n"
+	}
+	return []*Type{mn, mns, mne, xn, mnx, ml, mlc, mla, mq, mqc, xq}
+}
+
+// NamedIfacePtrCompareShapesR5 (C03): the types whose Equal and Compare methods have a pointer receiver and
+// a named interface parameter that only the pointer type implements, as VALUE components (slice and array
+// element, map value, field of a named struct, of an unnamed struct in a slice).  Not as top-level type or
+// behind a pointer: there plugin/compare generates the field-wise function of the pointer type for every
+// method whose parameter is neither a pointer nor an interface literal (the open finding
+// C03-compare-ignores-value-method describes it for value parameters; Go/Methods.v's [vm_exposed] knows
+// that class by the ids 100..199 only).
+func (c *Catalogue) NamedIfacePtrCompareShapesR5() []*Type {
+	var out []*Type
+	for _, t := range c.NamedIfaceMethodTypesR5() {
+		if t.ID < 223 || t.ID > 225 {
+			continue
+		}
+		h := Named(460+t.ID-223, "W"+t.Name, 0, St(B("string"), t, B("int")))
+		out = append(out, Sl(t), Ar(2, t), M(B("string"), t), h, Sl(h), Sl(Ar(2, t)))
+	}
+	return out
 }
 
 // NamedIfaceMethodShapesR5: each of those types as top-level type and as component held by value and
